@@ -141,6 +141,18 @@ Update ==
   /\ pending' = pending \cup KeysOf(DecodeFile(file))
   /\ UNCHANGED <<file, exists, descr>>
 
+\* db.update_from_hdf(other path) on the working database: update_from_file reads the other file
+\* (here: as one full export of the other database lays it out) entry by entry and calls
+\* database.store(x, outputs), which queues x through add_pending_array whatever the file it came
+\* from: what was read is written to the working database's own file by its next append export.
+\* d = <<<<key, names>>, ...>>: the other database (see HDFStore!UpdateFrom).
+ForeignRead(d) == DecodeFile(FullLayout(Abs!ForeignDb(d)))
+UpdateFrom(d) ==
+  /\ Abs!ForeignOK(d)
+  /\ db' = Abs!StoreAll(db, ForeignRead(d), 1)
+  /\ pending' = pending \cup KeysOf(ForeignRead(d))
+  /\ UNCHANGED <<file, exists, descr>>
+
 \* problem = OptimizationProblem.from_hdf(path): its database is Database.from_hdf(path)
 ReloadProblem ==
   /\ WithProblem /\ descr
